@@ -17,8 +17,8 @@ import (
 
 // C11 – no externally supplied bytes can crash a station or registrar process.
 //
-// Fourteen driver stages (one per repository package that owns an external entry point, plus the
-// valid-tag flights against the connection handler), each a
+// Fifteen driver stages (one per repository package that owns an external entry point, plus the
+// valid-tag flights against the connection handler and the bursts through the real ingest pipeline), each a
 // child process running the seeded structure-aware generator against the real entry points with
 // per-case panic capture, a crash-surviving flight recorder and a per-input watchdog.  The stages are
 // independent processes, so this property runs them four at a time (from Post, each with a private
@@ -30,6 +30,7 @@ import (
 
 var c11Stages = []Stage{
 	{Name: "lib", Pkg: "./pkg/station/lib", Run: "^TestVerifC11Lib$", Drivers: []string{"lib"}, Exports: []string{"lib", "cdtls", "dnat"}, Netns: true},
+	{Name: "burst", Pkg: "./pkg/station/lib", Run: "^TestVerifC11Burst$", Drivers: []string{"lib"}, Exports: []string{"lib", "cdtls", "dnat"}, Netns: true},
 	{Name: "app", Dir: "cmd/application", Pkg: ".", Run: "^TestVerifC11Handler$", Drivers: []string{"app"}, Exports: []string{"lib"}},
 	{Name: "validflights", Dir: "cmd/application", Pkg: ".", Run: "^TestVerifC11ValidFlights$", Drivers: []string{"app"}, Exports: []string{"lib"}},
 	{Name: "apireg", Pkg: "./pkg/regserver/apiregserver", Run: "^TestVerifC11API$", Drivers: []string{"apireg"}, Exports: []string{"regproc"}},
@@ -95,7 +96,9 @@ func init() {
 			"descriptor, outcome class) triples over non-empty inputs; validflights: a case = (admitted registration shape: transport x transport_params variant x " +
 			"library version x generation x family x what the station stored, flight kind: genuine under every prefix id / + data / cut / damaged around the intact tag / " +
 			"split at a cut / cross-transport identifier), sent to each WrapConnection and through handleNewTCPConn, and the stage is an ERROR unless every wrapping " +
-			"transport returned a registration at least once; thorough additionally counts coverage-guided fuzz executions per target (fuzz_executions)",
+			"transport returned a registration at least once; burst: a case = one message (valid with a client_lib_version nobody used before, or malformed) written in " +
+			"bursts by four producers into the real HandleRegUpdates (default 300, 1, 16, 1000 workers) next to the stats print-and-reset, the expiry sweep and handler " +
+			"lookups; the API stage additionally sends raw-socket requests whose Content-Length / chunking / headers vary independently of the body; thorough additionally counts coverage-guided fuzz executions per target (fuzz_executions)",
 		Assumptions: []string{
 			"operator-supplied configuration is fixed and valid (test phantom subnets, override subnets with known prefix ids, a ConnectingStats sink): configuration-only panics are C19's subject",
 			"stand-ins: liveness stub, fake Redis, /dev/null as the tun device, loopback DTLS listener on a random port, DNS resolver that fails at once, recorder instead of the ZMQ socket; no MaxMind database exists here, so GeoIP lookups run against the empty database only",
